@@ -1430,6 +1430,50 @@ VARIANTS = [
         '    match_grammar: Matchable = Sequence(\n        "USE",\n        Ref("DatabaseReferenceSegment"),\n        parse_mode=ParseMode.GREEDY,\n    )\n',
         "R06g", None, "seeded C06-8 family: a statement alternative that claims everything when unstarted",
     ),
+    # R06g sweep: dialect edits that do NOT make a plain GREEDY Sequence a prunable option: must stay quiet
+    Variant(
+        'quiet-use-statement-greedy-once-started', ANSI,
+        '    match_grammar: Matchable = Sequence(\n        "USE",\n        Ref("DatabaseReferenceSegment"),\n    )\n',
+        '    match_grammar: Matchable = Sequence(\n        "USE",\n        Ref("DatabaseReferenceSegment"),\n        parse_mode=ParseMode.GREEDY_ONCE_STARTED,\n    )\n',
+        'QUIET', None, 'R06g: GREEDY_ONCE_STARTED claims nothing before its first element matched',
+    ),
+    Variant(
+        'quiet-use-statement-greedy-tail-as-a-mandatory-element', ANSI,
+        '    match_grammar: Matchable = Sequence(\n        "USE",\n        Ref("DatabaseReferenceSegment"),\n    )\n',
+        '    match_grammar: Matchable = Sequence(\n        "USE",\n        Sequence(\n            Ref("DatabaseReferenceSegment"),\n            parse_mode=ParseMode.GREEDY,\n        ),\n    )\n',
+        'QUIET', None, 'R06g: a GREEDY Sequence as a mandatory element after a keyword is not an option anything prunes',
+    ),
+    Variant(
+        'quiet-bracketed-option-made-greedy', ANSI,
+        '        Bracketed(Ref("MergeStatementSegment")),\n    )\n',
+        '        Bracketed(Ref("MergeStatementSegment"), parse_mode=ParseMode.GREEDY),\n    )\n',
+        'QUIET', None, 'R06g: a Bracketed option is started by its bracket whatever its parse mode',
+    ),
+    Variant(
+        'quiet-unreferenced-segment-with-a-greedy-sequence', ANSI,
+        'class ExplainStatementSegment(BaseSegment):\n    """An `Explain` statement.\n',
+        'class UnusedGreedyProbeSegment(BaseSegment):\n    """Not referenced by any grammar."""\n\n    type = "unused_greedy_probe"\n    match_grammar: Matchable = OneOf(\n        Sequence("USE", Ref("DatabaseReferenceSegment"), parse_mode=ParseMode.GREEDY),\n        Ref("NakedIdentifierSegment"),\n    )\n\n\nclass ExplainStatementSegment(BaseSegment):\n    """An `Explain` statement.\n',
+        'QUIET', None, 'R06g: a segment nothing reaches from the root',
+    ),
+    Variant(
+        'quiet-explainable-statements-in-a-one-option-wrapper', ANSI,
+        '    match_grammar: Matchable = Sequence(\n        "EXPLAIN",\n        explainable_stmt,\n    )\n',
+        '    match_grammar: Matchable = Sequence(\n        "EXPLAIN",\n        OneOf(Sequence(explainable_stmt)),\n    )\n',
+        'QUIET', None, 'R06g: an option wrapped in a one-element STRICT Sequence inside a one-option OneOf',
+    ),
+    # breaking twins
+    Variant(
+        'use-statement-greedy-behind-a-one-option-wrapper', ANSI,
+        '    match_grammar: Matchable = Sequence(\n        "USE",\n        Ref("DatabaseReferenceSegment"),\n    )\n',
+        '    match_grammar: Matchable = OneOf(\n        Sequence(\n            "USE",\n            Ref("DatabaseReferenceSegment"),\n            parse_mode=ParseMode.GREEDY,\n        ),\n    )\n',
+        'R06g', None, 'the GREEDY Sequence is the only option of a OneOf that is itself a statement option',
+    ),
+    Variant(
+        'explainable-statement-option-made-greedy', ANSI,
+        '        explainable_stmt,\n    )\n',
+        '        OneOf(Sequence(explainable_stmt, parse_mode=ParseMode.GREEDY), Ref("MergeStatementSegment")),\n    )\n',
+        'R06g', None, 'a GREEDY Sequence written in place as an option',
+    ),
     # behaviour-preserving refactors: must stay quiet
     Variant(
         "quiet-key-length-inline-and-reordered", MALG,
